@@ -257,7 +257,7 @@ template <> void HashSys<String>::fill(int) {}
 
 // =============================================================== Set
 struct SetSys {
-	enum Kind { NEW1, NEW4, NEWDEF, ADD, REMOVE, MERGE, CLONE_TO, FROM_UNION, FROM_INTER, FROM_DIFF };
+	enum Kind { NEW1, NEW4, NEWDEF, ADD, REMOVE, MERGE, CLONE_TO, FROM_UNION, FROM_INTER, FROM_DIFF, TO_UNION, TO_INTER, TO_DIFF };
 	struct O { Kind k; int m, key; };
 	std::vector<O> ops;
 	Set<int>* is[2]; std::set<int>* ms[2];
@@ -269,6 +269,7 @@ struct SetSys {
 			add(NEW1, m); add(NEW4, m); add(NEWDEF, m);
 			for (int k = 0; k < 5; k++) { add(ADD, m, k); add(REMOVE, m, k); }
 			add(MERGE, m); add(CLONE_TO, m); add(FROM_UNION, m); add(FROM_INTER, m); add(FROM_DIFF, m);
+			add(TO_UNION, m); add(TO_INTER, m); add(TO_DIFF, m); // result stored over the RIGHT operand: the left operand lives on beside it
 		}
 	}
 	void add(Kind k, int m, int key = 0) { O o = { k, m, key }; ops.push_back(o); }
@@ -289,6 +290,7 @@ struct SetSys {
 		case ADD: return fmt("s%d << %d", o.m, keys[o.key]); case REMOVE: return fmt("s%d >> %d", o.m, keys[o.key]);
 		case MERGE: return fmt("s%d << s%d", o.m, 1 - o.m); case CLONE_TO: return fmt("s%d = s%d.clone()", 1 - o.m, o.m);
 		case FROM_UNION: return fmt("s%d = s%d + s%d", o.m, o.m, 1 - o.m); case FROM_INTER: return fmt("s%d = s%d & s%d", o.m, o.m, 1 - o.m); case FROM_DIFF: return fmt("s%d = s%d - s%d", o.m, o.m, 1 - o.m);
+		case TO_UNION: return fmt("s%d = s%d + s%d", 1 - o.m, o.m, 1 - o.m); case TO_INTER: return fmt("s%d = s%d & s%d", 1 - o.m, o.m, 1 - o.m); case TO_DIFF: return fmt("s%d = s%d - s%d", 1 - o.m, o.m, 1 - o.m);
 		}
 		return "?";
 	}
@@ -306,6 +308,9 @@ struct SetSys {
 		case FROM_UNION: { std::set<int> r = M; r.insert(ms[1 - o.m]->begin(), ms[1 - o.m]->end()); replace(o.m, I + *is[1 - o.m], r); break; }
 		case FROM_INTER: { std::set<int> r; for (std::set<int>::iterator it = M.begin(); it != M.end(); ++it) if (ms[1 - o.m]->count(*it)) r.insert(*it); replace(o.m, I & *is[1 - o.m], r); break; }
 		case FROM_DIFF: { std::set<int> r; for (std::set<int>::iterator it = M.begin(); it != M.end(); ++it) if (!ms[1 - o.m]->count(*it)) r.insert(*it); replace(o.m, I - *is[1 - o.m], r); break; }
+		case TO_UNION: { std::set<int> r = M; r.insert(ms[1 - o.m]->begin(), ms[1 - o.m]->end()); replace(1 - o.m, I + *is[1 - o.m], r); break; }
+		case TO_INTER: { std::set<int> r; for (std::set<int>::iterator it = M.begin(); it != M.end(); ++it) if (ms[1 - o.m]->count(*it)) r.insert(*it); replace(1 - o.m, I & *is[1 - o.m], r); break; }
+		case TO_DIFF: { std::set<int> r; for (std::set<int>::iterator it = M.begin(); it != M.end(); ++it) if (!ms[1 - o.m]->count(*it)) r.insert(*it); replace(1 - o.m, I - *is[1 - o.m], r); break; }
 		default: break;
 		}
 		return observe(err);
@@ -335,6 +340,14 @@ struct SetSys {
 			if (toStd(A + B, 0) != u || (A + B).length() != (int)u.size()) { err = "s0 + s1 (union)"; return false; }
 			if (toStd(A & B, 0) != in || (A & B).length() != (int)in.size()) { err = "s0 & s1 (intersection)"; return false; }
 			if (toStd(A - B, 0) != d || (A - B).length() != (int)d.size()) { err = "s0 - s1 (difference)"; return false; }
+			// a result is a new set: changing it must leave both operands as they were
+			for (int which = 0; which < 6; which++) {
+				const Set<int>& X = which < 3 ? A : B; const Set<int>& Y = which < 3 ? B : A;
+				Set<int> r = which % 3 == 0 ? X + Y : which % 3 == 1 ? (X & Y) : X - Y;
+				r << 777001; int gone = keys[0]; r >> gone;
+				static const char* on[] = { "s0 + s1", "s0 & s1", "s0 - s1", "s1 + s0", "s1 & s0", "s1 - s0" };
+				if (A.length() != (int)MA.size() || B.length() != (int)MB.size() || A.contains(777001) || B.contains(777001) || A.contains(keys[0]) != (MA.count(keys[0]) != 0) || B.contains(keys[0]) != (MB.count(keys[0]) != 0)) { err = fmt("modifying the result of %s changed an operand", on[which]); return false; }
+			}
 			if (A.contains(B) != all) { err = fmt("s0.contains(s1) = %d, reference %d", (int)A.contains(B), (int)all); return false; }
 			if (A.containsAny(B) != any) { err = fmt("s0.containsAny(s1) = %d, reference %d", (int)A.containsAny(B), (int)any); return false; }
 		}
